@@ -28,6 +28,7 @@ QSRC = ['files', 'list'] + [f'sig:{p}' for p in PS]
 RSRC = ['files', 'list', 'use-db', 'square'] + [f'sig:{p}' for p in PS]
 OPTS = ['none', 'k-only', 'p-only'] + [f'kp:{p}' for p in PS] + ['kp:DEF']      # explicit options that spell out the default are still explicit
 # the same options spelled in the other order (prefix before k, long option name) and placed after the source options instead of before them
+OPTS += ['kp-falsy', 'kp-lower:P0', 'kp-lower:P1']       # explicit but falsy values (-k 0 -p ''): still explicit, and not valid parameters; a prefix in lower case is the same prefix
 OPTS += [f'pk:{p}' for p in PS] + [f'late-kp:{p}' for p in PS] + [f'late-pk:{p}' for p in PS] + ['late-k-only', 'late-p-only']
 
 
@@ -54,8 +55,12 @@ def opt_args(o):
 		return ['-k', '7'], None, False
 	if o == 'p-only':
 		return ['-p', 'AC'], None, False
+	if o == 'kp-falsy':
+		return ['-k', '0', '-p', ''], None, False
 	p = o.split(':')[1]
 	k, pre = clifix.PARAMS[p]
+	if o.startswith('kp-lower:'):
+		return ['-k', str(k), '-p', pre.lower()], p, True
 	if o.startswith('pk:'):
 		return ['--prefix', pre, '-k', str(k)], p, True
 	return ['-k', str(k), '-p', pre], p, True
